@@ -18,11 +18,11 @@ CHECKS = {
                 note=SCHED_NOTE),
     "C02": dict(level="exploration", ref="DESIGN.md 4/C02",
                 technique="runtime monitoring: per-stream message histories checked against a reference model (stepped) and exactly-once/ordering/cause rules (stress)",
-                text="Every message sent on every fake Execute/WaitExecution stream is recorded at the Send boundary. Stepped histories (Send gates, authorizer gates, cancellations, kills, timer ticks, worker loss) are compared message by message with the reference model: exactly one final message, nothing after it, faithful result or scheduler error whose cause occurred on the virtual clock, stage order. Stress rounds check the same structural rules and that the final result is a response some worker actually submitted for that action.",
+                text="Every message sent on every fake Execute/WaitExecution stream is recorded at the Send boundary. Stepped histories (Send gates, authorizer gates, cancellations, kills, timer ticks, worker loss) are compared message by message with the reference model: exactly one final message, nothing after it, faithful result or scheduler error whose cause occurred on the virtual clock, stage order. Stress rounds check the same structural rules and that the final result is a response some worker actually submitted for that action. Final messages must be proto.Equal to the ExecuteResponse the worker submitted (result, server logs, status details; recorded by token), and operator kill statuses must arrive with their details unchanged (DESIGN 9.10).",
                 note=SCHED_NOTE),
     "C03": dict(level="exploration", ref="DESIGN.md 4/C03",
                 technique="runtime monitoring: duplicate-heavy stepped histories vs reference model, in-flight map invariant hook, equal-finals monitor",
-                text="Duplicate Execute requests are generated at every stage of a task's life (queued, handed to a parked worker, executing, during a retry on the largest size class, in the step of completion, after completion, with do_not_cache, with leavers and abandonment). The model predicts which operation each request attaches to and which tasks may be handed out; the hook checks that every live cacheable task is the registered in-flight entry of its digest.",
+                text="Duplicate Execute requests are generated at every stage of a task's life (queued, handed to a parked worker, executing, during a retry on the largest size class, in the step of completion, after completion, with do_not_cache, with leavers and abandonment). The model predicts which operation each request attaches to and which tasks may be handed out; the hook checks that every live cacheable task is the registered in-flight entry of its digest. A WaitExecution attached to an operation that was already removed, and the scheduler's own cancellation reaching a still attached client, are rules owned by this property (DESIGN 9.8, seventh round).",
                 note=SCHED_NOTE),
     "C04": dict(level="exploration", ref="DESIGN.md 4/C04",
                 technique="runtime monitoring: every hand-out compared with the set of tasks/workers the documented policy allows (reference model on plain slices), heap-order hook",
